@@ -245,18 +245,22 @@ def main():
     # it and the traceback (which then passes through the library) is reported as a violation below.
     import signal
 
+    class WallClock(BaseException):
+        """not an Exception: the library's own `except (OSError, TimeoutError)` clauses must not swallow the watchdog"""
+
     def _alarm(signum, frame):
-        raise TimeoutError(f"check {pid} did not complete within its wall-clock limit")
+        raise WallClock(f"check {pid} did not complete within its wall-clock limit")
     limit = int(os.environ.get("VERIF_WALL_LIMIT", "10800" if tier == "thorough" else "1500"))
     try:
         signal.signal(signal.SIGALRM, _alarm)
-        signal.alarm(limit)
+        signal.setitimer(signal.ITIMER_REAL, limit, 5)      # fires again every 5 s should a bare `except:` swallow it
     except (ValueError, AttributeError):
         pass
     try:
         result = props.CHECKS[pid](ctx)
-        signal.alarm(0)
-    except Exception:
+        signal.setitimer(signal.ITIMER_REAL, 0)
+    except (Exception, WallClock):
+        signal.setitimer(signal.ITIMER_REAL, 0)
         tb = traceback.format_exc()
         log(tb)
         # an exception that travelled through the library under test (or the parsers it delegates to) is behaviour of
